@@ -137,8 +137,11 @@ inline Outcome compare_session(const Case& c, Violations& V, Stats& S, const cha
     S.sessions++;
     auto rep = [&](const std::string& key, const std::string& what) { V.add(key, what + " [" + c.label + "]", rj); };
     Plan P = make_plan(c.tx, c.fund, c.select, c.flags);
-    if (P.out_of_scope) { S.out_of_scope++; return O; }
-    S.by_type[P.refused ? "refused" : P.type]++;
+    // outside the supported output types (other witness versions / program lengths, unknown leaf versions): nothing is compared, but the
+    // implementation is still driven through set-up and stepping - it must refuse or run without crashing (the worker's death is reported)
+    const bool oos = P.out_of_scope;
+    if (oos) S.out_of_scope++;
+    else S.by_type[P.refused ? "refused" : P.type]++;
     // ---- reference verdict (only meaningful when the plan is not a refusal for selection reasons)
     Err rv = Err::UNKNOWN_ERROR;
     bool have_rv = false;
@@ -166,6 +169,12 @@ inline Outcome compare_session(const Case& c, Violations& V, Stats& S, const cha
         if (ok && !inst.configure_tx_txin()) { ok = false; stage = "configure_tx_txin"; }
         if (ok && !inst.setup_environment(c.flags)) { ok = false; stage = "setup_environment"; }
     } catch (const std::exception& e) { ok = false; stage = std::string("exception: ") + e.what(); }
+    if (oos) {
+        S.outcomes[ok ? "out-of-scope:set-up" : "out-of-scope:refused"]++;
+        int guard = 0;
+        try { while (ok && !inst.at_end() && guard++ < 10000) if (!inst.step()) break; } catch (const std::exception&) {}
+        return O;
+    }
     if (!ok) {
         O.refused = true; S.refused++;
         S.outcomes["refused:" + stage.substr(0, 40)]++;
